@@ -40,8 +40,6 @@ func runC02(e *Env) {
 	ruleC02Alpha(e, lits)
 	ruleC02Lower(e)
 	ruleC02Zero(e)
-	ruleGroupValue(e, "C02.value", romanDigits)
-	e.S.Floor("C02.value", 40)
 	ruleDeleg(e, "C02.deleg", "roman")
 	ruleLimitAccept(e, "C02.limit", "roman")
 	e.S.Floor("C02.limit", 2)
@@ -707,19 +705,9 @@ func ruleC02Lower(e *Env) {
 				if !ok {
 					continue
 				}
-				cmp, ok := iff.Cond.(*ssa.BinOp)
-				if !ok {
-					continue
-				}
-				and, ok := cmp.X.(*ssa.BinOp)
-				if !ok || and.Op != token.AND {
-					continue
-				}
-				k, isK := flow.ConstInt(and.Y)
-				z, isZ := flow.ConstInt(cmp.Y)
-				if isK && k == lc && and.X == ssa.Value(df.Params[2]) && isZ && z == 0 {
+				if pol := e.flagTest(iff.Cond, df.Params[2], lc); pol != 0 {
 					onTrue := id.Succs[0] == d || id.Succs[0].Dominates(d)
-					if cmp.Op == token.NEQ && onTrue || cmp.Op == token.EQL && !onTrue {
+					if pol > 0 && onTrue || pol < 0 && !onTrue {
 						okGate = true
 					}
 				}
